@@ -626,7 +626,7 @@ fn run_events(w: &World, sys: &Sys, mut snap: Value, evs: &[Value], events: &mut
         }
         // C13 "every listed path exists according to the filesystem's own existence queries": after a listing that
         // asked for it ("sound": true) the listed paths (all of a short listing, an even spread of a long one) are put
-        // to exists() on the same object
+        // to exists(), directory_exists() and file_exists() on the same object
         let mut sound = Vec::new();
         if rec.get("sound").and_then(|v| v.as_bool()).unwrap_or(false) && rec["res"]["ok"].as_bool().unwrap_or(false) {
             if let Some(items) = rec["res"]["v"].as_array() {
@@ -637,9 +637,13 @@ fn run_events(w: &World, sys: &Sys, mut snap: Value, evs: &[Value], events: &mut
                             continue; // not layer-relative: the listing itself is already rejected
                         }
                         let comps: Vec<String> = sp.split('/').filter(|c| !c.is_empty()).map(|c| c.to_string()).collect();
-                        let mut q = mk_event("exists", &comps, false, false);
-                        q["sound_of"] = json!(true);
-                        sound.push(q);
+                        // all three existence queries; what each must answer is decided by the spec from the layers
+                        // (a listed path may be a directory in one layer and a regular file in another)
+                        for qop in ["exists", "directory_exists", "file_exists"] {
+                            let mut q = mk_event(qop, &comps, false, false);
+                            q["sound_of"] = json!(true);
+                            sound.push(q);
+                        }
                     }
                 }
             }
